@@ -1,6 +1,7 @@
 import KoordVerif.Common.Proto
 import KoordVerif.Model.C06
 import KoordVerif.Model.C06Pick
+import KoordVerif.Model.C06Alloc
 /-
 Driver for C06.  Op lines (integer tokens):
 
@@ -16,6 +17,16 @@ Driver for C06.  Op lines (integer tokens):
   take <maxRef> <excl> <most> <bind> <need> <numCPUs> <numCores> <numNodes> <numSockets>
        <nt> (cpu core node socket)… <na> avail… <nal> (cpu ref excl)… <np> preferred…
                                                           -> take 1 cpu… | take 0   (takePreferredCPUs)
+  cfg <maxRef> <most> <num> <den> <numCPUs> <numCores> <numNodes> <numSockets>
+      <nt> (cpu core node socket)… <nr> reserved… <ncap> (cell rawCapacity)…
+                                                          (context of a history through Allocate: topology, STORED
+                                                           raw NUMA capacities, cpu amplification ratio num/den of the
+                                                           node annotation; resets the ledger; no output)
+  opts                                                    -> opts (cell capacity)…   (getResourceOptions: amplified copy)
+  alloc <uid> <excl> <bind> <required> <cpuBind> <ncpu> <hasHint> <nh> h… <nreq> (dim milli)…
+                                                          -> alloc 0 | alloc 1 <nc> cpu… <ncell> (cell amt)…  (Allocate)
+  commit                                                  -> ledger dump   (Update with the model's own last allocation)
+  navailx                                                 -> navail (cell available)…   (with cpu amplification)
 ledger dump = `pods u…` / `cpus (c ref excl)…` / `res (cell amt)…` (non-zero) / `avail c…`,
 every list sorted by key.  All amounts in milli-units.
 -/
@@ -55,6 +66,9 @@ structure Ctx where
   topo     : List Nat := []
   reserved : List Nat := []
   L        : Ledger := Ledger.empty
+  cfg      : NodeCfg := { topo := [], cpc := 1, cpn := 1, cps := 1, maxRef := 1, most := true, reserved := [],
+                          caps := [], num := 0, den := 1 }
+  last     : Option PodAlloc := none
 
 def dump (c : Ctx) : List String :=
   let pods := sortNat (c.L.pods.map (·.uid))
@@ -136,6 +150,51 @@ def runTake : List Int → List String
     | none => ["bad-op"]
   | _ => ["bad-op"]
 
+def runCfg (c : Ctx) : List Int → Ctx × List String
+  | maxRef :: most :: num :: den :: nCPU :: nCore :: nNode :: nSock :: rest =>
+    match takeBlock 4 rest with
+    | some (t, rest) =>
+      match takeBlock 1 rest with
+      | some (r, rest) =>
+        match takeBlock 2 rest with
+        | some (caps, []) =>
+          if nCore ≤ 0 || nNode ≤ 0 || nSock ≤ 0 || nCPU < 0 || den ≤ 0 then (c, ["bad-op"]) else
+          let topo := quads t
+          let cfg : NodeCfg := { topo := topo, cpc := nCPU.toNat / nCore.toNat, cpn := nCPU.toNat / nNode.toNat,
+                                 cps := nCPU.toNat / nSock.toNat, maxRef := maxRef, most := most ≠ 0,
+                                 reserved := r.map Int.toNat, caps := pairs caps, num := num, den := den }
+          ({ maxRef := maxRef, topo := topo.map (·.cpu), reserved := r.map Int.toNat, L := Ledger.empty,
+             cfg := cfg, last := none }, [])
+        | _ => (c, ["bad-op"])
+      | none => (c, ["bad-op"])
+    | none => (c, ["bad-op"])
+  | _ => (c, ["bad-op"])
+
+def showCells (l : List (Nat × Int)) : String :=
+  String.join ((sortKey l).map fun (k, v) => s!" {k} {v}")
+
+def runAlloc (c : Ctx) : List Int → Ctx × List String
+  | uid :: excl :: bind :: required :: cpuBind :: ncpu :: hasHint :: rest =>
+    match takeBlock 1 rest with
+    | some (hint, rest) =>
+      match takeBlock 2 rest with
+      | some (reqs, []) =>
+        if uid < 0 || excl < 0 || bind < 0 || hint.any (· < 0) then (c, ["bad-op"]) else
+        let req : AllocReq := { uid := uid.toNat, excl := excl.toNat, bind := bind.toNat, required := required ≠ 0,
+                                cpuBind := cpuBind ≠ 0, ncpu := ncpu,
+                                hint := if hasHint ≠ 0 then some (hint.map Int.toNat) else none,
+                                reqs := pairs reqs }
+        match allocate c.cfg c.L req with
+        | none => ({ c with last := none }, ["alloc 0"])
+        | some p =>
+          let cpus := sortNat p.cpus
+          ({ c with last := some p },
+           [s!"alloc 1 {cpus.length}" ++ String.join (cpus.map fun x => s!" {x}") ++ s!" {p.numa.length}" ++
+              showCells p.numa])
+      | _ => (c, ["bad-op"])
+    | none => (c, ["bad-op"])
+  | _ => (c, ["bad-op"])
+
 def runLine (c : Ctx) (line : String) : Ctx × List String :=
   match toks line with
   | kind :: rest =>
@@ -145,6 +204,21 @@ def runLine (c : Ctx) (line : String) : Ctx × List String :=
       match kind with
       | "numa" => (c, runNuma xs)
       | "take" => (c, runTake xs)
+      | "cfg" => runCfg c xs
+      | "alloc" => runAlloc c xs
+      | "opts" =>
+        match xs with
+        | [] => (c, ["opts" ++ showCells c.cfg.capacity])
+        | _ => (c, ["bad-op"])
+      | "commit" =>
+        match xs, c.last with
+        | [], some p => let c' := { c with L := step c.L (.upd p), last := none }; (c', dump c')
+        | _, _ => (c, ["bad-op"])
+      | "navailx" =>
+        match xs with
+        | [] => (c, ["navail" ++ showCells (c.cfg.capacity.map fun (k, cap) =>
+                        (k, availableCellAmp c.cfg.num c.cfg.den c.cfg.nodeOf cap c.L k))])
+        | _ => (c, ["bad-op"])
       | "init" =>
         match xs with
         | maxRef :: rest =>
